@@ -24,13 +24,39 @@ deadlock or a runaway execution is an infrastructure error (exit 2), never a vio
 
 Scenarios: (a) handler contexts in one thread vs requests in another, one Runtime object entered
 by several threads, inherit(); (b) concurrent Overloaded.register / Dataset.register; (c) concurrent
-evaluations of one cached dataset with different / equal options.
+evaluations of one cached dataset with different / equal options; (d) the same for cached datasets
+whose dependency graph contains a USER-BUILT node, defined outside dataset.py / cache.py and hence one
+object shared by every thread: WithOptions / WithDefaultOptions (around an option, a section, a cached
+dataset, as an argument of another expression), Switch, case, Coalesce, Template, Map, Iter, the
+evaluatable_* collections, a pipeline step, Overloaded, Option with option / template defaults; 2-3
+threads with different and equal options.  This directed family always runs (every kind with two
+threads; the option wrappers also with equal options and with three threads; the seed picks one more
+kind for three threads in the quick tier, thorough runs all).
+Yield points in (d): "line" = every line of labrea/cache.py and of the labrea modules that define the
+classes of the shared nodes (option.py, conditional.py, coalesce.py, template.py, iterable.py,
+pipeline.py, application.py, arguments.py, overload.py, dataset.py, and types.py for Value / Apply /
+Bind and the inherited methods - computed from the graph, listed per node kind in the evidence);
+"opcode" = every shared-memory opcode in those node modules.  In both, a METHOD frame of those modules is traced only when it runs on one of the shared
+node objects (the instances of the same classes that dataset.py and the nodes build afresh for one
+evaluation are reachable from one thread only; steps on them commute with everything); code without
+`self` in those modules is always traced (except in types.py, where it is the default request handlers
+every evaluation goes through).  Exploration in (d) keeps one reservoir per number of
+preemptions (phases(): caps), so that ALL single-preemption schedules (one thread stopped at a yield
+point while the others run to completion; for either starting order where the threads do different
+things) are run whenever a depth has at most caps[1] of them - with the quick caps that is every
+two-thread scenario at line level and the lighter ones at opcode level; larger levels are sampled and
+reported under sampled_levels - independent of how many two-preemption schedules there are.
 Oracles on the implementation: (a) every thread's observations equal those of its own program run
 alone (threads that inherit: the handlers the parent had at the step inherit committed), computed by
 a small independent interpreter over the observed order of atomic steps; (b) every registered key is
-present afterwards; (c) every evaluation returns the value of its own options.
+present afterwards; (c) every evaluation returns the value of its own options; (d) as (c), the value of
+a thread's own options being what the same evaluation returns when it runs alone, unscheduled, on a
+fresh graph - and afterwards a sequential evaluation with each thread's options again returns that
+value (no wrong value was stored under the thread's cache key).
 Correspondence: the observed order of atomic steps is run through the Lean model (drv_runtime
-sched / reg / cache) and must give the observed outcome.
+sched / reg / cache; (d) uses the cache model on the dataset's own cache, with the classes of the threads'
+real cache fingerprints) and must give the observed outcome.
+Scenarios run in separate runner processes, several at a time; each is deterministic given its job.
 """
 import sys
 from pathlib import Path
@@ -39,8 +65,10 @@ sys.path.insert(0, str(Path(__file__).resolve().parent.parent))
 from common import *  # noqa: F401,F403
 
 import json
+import os
 import random
 import subprocess
+from concurrent.futures import ThreadPoolExecutor
 from typing import Any, Dict, List, Optional, Tuple
 
 SPEC = PropSpec(
@@ -54,31 +82,45 @@ SPEC = PropSpec(
         "the schedule exploration checks it up to the preemption bound, it is not proved",
         "the deterministic scheduler (sys.settrace + semaphores) in harness/props/C15.py and lean/DrvRuntime.lean (unverified glue)",
         "CPython 3.12 trace events: a thread can only be preempted at the explored yield points "
-        "(line / shared-memory opcode boundaries inside labrea/{runtime,overload,cache,dataset}.py, lock boundaries)",
+        "(line / shared-memory opcode boundaries inside labrea/{runtime,overload,cache,dataset}.py, lock boundaries; "
+        "in the shared-node scenarios (d): lines of labrea/cache.py, and lines / shared-memory opcodes of the modules defining "
+        "the shared nodes - labrea/{option,conditional,coalesce,template,iterable,pipeline,application,arguments,overload,"
+        "dataset,types}.py - in method frames running on a shared node object and (types.py excepted) in code without `self`)",
+        "(d): steps of method frames on per-evaluation instances of the node classes (built by dataset.py / Map / Switch for one "
+        "evaluation, reachable from one thread) commute with the other threads' steps and are not yield points; "
+        "confectioner (mix, resolve) is not traced: a call into it is one step",
     ],
     assumptions=[
         "default handlers are not registered concurrently with requests (registration is global by design)",
         "thread programs are short (2-3 threads, a few operations each); schedules beyond the preemption bound are sampled",
         "handler bodies are tags; values of cached datasets are pure functions of their options",
+        "(d): the expected value of a thread is what its evaluation returns when run alone on a fresh graph (sequential "
+        "semantics are the other properties' business); option dictionaries are distinct objects per thread and not mutated",
     ],
 )
 
 # ----------------------------------------------------------------------------- runner (subprocess)
 
 RUNNER = r'''
-import sys, os, json, threading, _thread, dis, random, time
+import sys, os, json, threading, _thread, dis, random, time, types, functools, inspect
 import importlib
 import labrea
 RT = importlib.import_module("labrea.runtime")
 OV = importlib.import_module("labrea.overload")
 CA = importlib.import_module("labrea.cache")
 DS = importlib.import_module("labrea.dataset")
+TY = importlib.import_module("labrea.types")
 Request, Runtime = RT.Request, RT.Runtime
 
 WAIT = 20.0
 MAXY = 200000
 TARGETS = set()
 TARGETS_OF = {"ctx": (RT,), "reg": (OV, DS), "cache": (CA,)}
+# "graph" scenarios: the traced files are computed from the scenario's graph: cache.py + NODE_FILES, every labrea
+# module that defines the class of a user-built node of the graph (None in the other scenarios); SHARED_IDS are
+# the ids of those node objects (see make_tracer)
+NODE_FILES = None
+SHARED_IDS = frozenset()
 SHARED_OPS = set()
 for name in ("LOAD_ATTR", "STORE_ATTR", "DELETE_ATTR", "LOAD_GLOBAL", "STORE_GLOBAL", "LOAD_NAME",
              "BINARY_SUBSCR", "STORE_SUBSCR", "DELETE_SUBSCR", "DICT_UPDATE", "DICT_MERGE", "CALL",
@@ -253,11 +295,37 @@ def make_tracer(s, me):
             s.yield_point(me)
         return local
 
+    node_files, shared_ids, cache_file, types_file = NODE_FILES, SHARED_IDS, CA.__file__, TY.__file__
+
     def glob(frame, event, arg):
-        if event == "call" and frame.f_code.co_filename in TARGETS:
-            if gran == "opcode":
-                frame.f_trace_opcodes = True
-            return local
+        if event == "call":
+            co = frame.f_code
+            fn = co.co_filename
+            if node_files is not None:
+                # graph scenarios.  cache.py: every line (line phase).  The modules that implement the shared nodes
+                # (line phase: every line, opcode phase: every shared-memory opcode): methods running on one of
+                # the SHARED objects, and code without `self` (module functions, static methods, nested generators
+                # and lambdas); methods running on instances that dataset.py / the nodes build afresh for one
+                # evaluation touch objects of one thread only and commute with everything.  types.py (Value, Apply,
+                # Bind, the inherited Evaluatable methods and the evaluate / keys / validate wrappers): methods
+                # running on a shared object only - its code without `self` is the default request handlers, which
+                # every evaluation of every object goes through and which only read their own request
+                if fn in node_files:
+                    if co.co_argcount and co.co_varnames[0] == "self":
+                        if id(frame.f_locals.get("self")) not in shared_ids:
+                            return None
+                    elif fn == types_file:
+                        return None
+                    if gran == "opcode":
+                        frame.f_trace_opcodes = True
+                    return local
+                if fn == cache_file and gran == "line":
+                    return local
+                return None
+            if fn in TARGETS:
+                if gran == "opcode":
+                    frame.f_trace_opcodes = True
+                return local
         return None
     return glob
 
@@ -570,20 +638,7 @@ def exec_reg(scn, serial, preempts, gran):
 
 # ------------------------------------------------------------------ scenario (c): cached dataset
 
-def exec_cache(scn, serial, preempts, gran):
-    from labrea import Option, dataset
-    opts = scn["threads"]            # per thread: value of option A
-    n = len(opts)
-    calls = []
-
-    @dataset
-    def target(a: int = Option("A")) -> int:
-        calls.append(a)
-        return a * 100 + 7
-
-    cache = target.cache
-    ops = []
-
+def make_logdict(ops):
     class LogDict(dict):
         """the MemoryCache dict: every operation is one atomic step, logged at the moment it happens
         (a yield point right before it, none between the operation and its log entry)"""
@@ -610,10 +665,25 @@ def exec_cache(scn, serial, preempts, gran):
             if me is not None:
                 ops.append(me)
             return dict.__contains__(self, k)
+    return LogDict()
 
+
+def exec_cache(scn, serial, preempts, gran):
+    from labrea import Option, dataset
+    opts = scn["threads"]            # per thread: value of option A
+    n = len(opts)
+    calls = []
+
+    @dataset
+    def target(a: int = Option("A")) -> int:
+        calls.append(a)
+        return a * 100 + 7
+
+    cache = target.cache
+    ops = []
     if not isinstance(cache, CA.MemoryCache) or not isinstance(getattr(cache, "_cache", None), dict):
         raise InfraError("dataset cache is not a MemoryCache with a _cache dict")
-    cache._cache = LogDict()
+    cache._cache = make_logdict(ops)
     results = {}
 
     def body(i):
@@ -633,11 +703,207 @@ def exec_cache(scn, serial, preempts, gran):
     return s, {"dictops": ops, "results": results, "bodies": sorted(calls)}
 
 
+# ------------------------------------------------------------------ scenario (d): cached dataset over shared user-built nodes
+
+def _lt20(a):
+    return a < 20
+
+
+def _triple(v):
+    return v * 3
+
+
+def _pick(mode):
+    return labrea.Option("X") if mode == "x" else labrea.Option("Y")
+
+
+def build_graph(node, calls):
+    """A fresh dependency graph: the cached dataset `target` has ONE parameter whose default is a user-built
+    expression `shared` of the given kind, built here once (outside dataset.py / cache.py) and therefore one
+    object, with one __dict__, for every thread that evaluates `target`."""
+    L = labrea
+    Option = L.Option
+    if node == "with_options":                      # forced pre-set options around an option
+        shared = L.WithOptions(Option("A"), {"U": 1})
+    elif node == "with_options_section":            # a pre-set section that is merged key by key with the caller's
+        shared = L.WithOptions(Option("S.A"), {"S": {"U": 1}})
+    elif node == "with_default_options":            # caller's options win over the pre-set ones
+        shared = L.WithDefaultOptions(Option("A"), {"A": 0})
+    elif node == "with_options_over_dataset":       # the wrapped object is itself a cached dataset
+        @L.dataset
+        def inner(a=Option("A"), u=Option("U")):
+            return a * 10 + u
+        shared = L.WithOptions(inner, {"U": 3})
+    elif node == "with_options_as_argument":        # the node is an argument of another expression
+        shared = L.WithOptions(Option("A"), {"U": 1}).apply(_triple)
+    elif node == "switch":
+        shared = L.Switch(Option("MODE"), {"x": Option("X"), "y": Option("Y")}, Option("Z"))
+    elif node == "case":
+        shared = L.case(Option("A")).when(_lt20, Option("X")).otherwise(Option("Y"))
+    elif node == "coalesce":
+        shared = L.Coalesce(Option("P"), Option("Q"))
+    elif node == "template":
+        shared = L.Template("{A}-{:b:}", b=Option("B"))
+    elif node == "map":
+        shared = L.Map(Option("A"), {"A": Option("XS")})
+    elif node == "iter":
+        shared = L.Iter(Option("A"), Option("B"))
+    elif node == "collections":
+        shared = L.evaluatable_dict({"a": Option("A"), "t": L.evaluatable_tuple(Option("B"), Option("A"))})
+    elif node == "pipeline":
+        @L.pipeline_step
+        def add(x, k=Option("K")):
+            return x + k
+        shared = Option("A") >> add
+    elif node == "overloaded":
+        shared = L.Overloaded(Option("K"), {1: Option("X"), 2: Option("Y")}, Option("Z"))
+    elif node == "bind_apply":                      # Bind / Apply / Value (types.py) built with .bind() and .apply()
+        shared = Option("MODE").bind(_pick).apply(_triple)
+    elif node == "option_default":                  # an option whose default is another option / a template
+        shared = L.evaluatable_tuple(Option("A", default=Option("B")), Option("C", default="{B}/d"))
+    else:
+        raise ValueError("unknown node kind %r" % (node,))
+
+    @L.dataset
+    def target(x=shared):
+        v = plain(x)
+        calls.append(v)
+        return ["value-of", v]
+
+    return target, [shared]
+
+
+def plain(x):
+    """evaluation results as plain JSON-like data (lazy iterables are consumed here, inside the dataset body)"""
+    if x is None or isinstance(x, (str, bytes, int, float, bool)):
+        return x
+    if isinstance(x, dict):
+        return {str(k): plain(v) for k, v in sorted(x.items(), key=lambda kv: repr(kv[0]))}
+    if isinstance(x, (set, frozenset)):
+        return sorted((plain(v) for v in x), key=repr)
+    return [plain(v) for v in x]
+
+
+def node_objects(roots):
+    """every Evaluatable reachable from the user-built nodes through attributes / containers; a Dataset is
+    listed but not entered (its innards are built afresh by dataset.py for every evaluation)"""
+    seen, out, todo = set(), [], list(roots)
+    while todo:
+        o = todo.pop()
+        if id(o) in seen:
+            continue
+        seen.add(id(o))
+        if isinstance(o, TY.Evaluatable):
+            out.append(o)
+            if not isinstance(o, DS.Dataset):
+                todo.extend(getattr(o, "__dict__", {}).values())
+        elif isinstance(o, (list, tuple, set, frozenset)):
+            todo.extend(o)
+        elif isinstance(o, dict):
+            todo.extend(o.values())
+        elif isinstance(o, functools.partial):
+            todo.extend(o.args); todo.extend(o.keywords.values())
+    return out
+
+
+def node_modules(objs):
+    """(files, class names): the labrea modules that define the classes of the given nodes, and types.py (the
+    concrete Value / Apply / Bind and the methods every node inherits)"""
+    files, names = {TY.__file__}, set()
+    for o in objs:
+        for cls in type(o).__mro__:
+            mod = getattr(cls, "__module__", "")
+            if mod.startswith("labrea.") and not (mod == "labrea.types" and (inspect.isabstract(cls) or cls is TY.Transformation)):
+                files.add(sys.modules[mod].__file__)
+                names.add(mod[len("labrea."):] + "." + cls.__qualname__)
+    return files, names
+
+
+GRAPH_SOLO = {}
+
+
+def show(v):
+    return json.dumps(v, sort_keys=True, default=repr)
+
+
+def graph_solo(scn):
+    """the specification side: every thread's evaluation run ALONE, unscheduled, on a fresh graph of its own
+    (value = pure function of the thread's own options), and the cache fingerprint of its options"""
+    key = json.dumps(scn, sort_keys=True)
+    if key not in GRAPH_SOLO:
+        expected, fps = {}, []
+        for i, o in enumerate(scn["threads"]):
+            target, _ = build_graph(scn["node"], [])
+            o = json.loads(json.dumps(o))
+            try:
+                expected[str(i)] = show(target.evaluate(o))
+                fp = target.fingerprint(o)
+            except Exception as e:
+                raise InfraError("graph scenario %s: thread %d alone fails: %s: %s" % (scn["node"], i, type(e).__name__, e))
+            if fp not in fps:
+                fps.append(fp)
+            expected["fp%d" % i] = fps.index(fp) + 1
+        GRAPH_SOLO[key] = expected
+    return GRAPH_SOLO[key]
+
+
+def exec_graph(scn, serial, preempts, gran):
+    global NODE_FILES, SHARED_IDS
+    solo = graph_solo(scn)
+    n = len(scn["threads"])
+    opts = [json.loads(json.dumps(o)) for o in scn["threads"]]      # one dictionary object per thread
+    calls = []
+    target, shared = build_graph(scn["node"], calls)
+    cache = target.cache
+    ops = []
+    if not isinstance(cache, CA.MemoryCache) or not isinstance(getattr(cache, "_cache", None), dict):
+        raise InfraError("dataset cache is not a MemoryCache with a _cache dict")
+    cache._cache = make_logdict(ops)
+    nodes = node_objects(shared)
+    files, classes = node_modules(nodes)
+    SHARED_IDS = frozenset(id(o) for o in nodes)
+    NODE_FILES = frozenset(files)
+    TARGETS.clear()
+    TARGETS.add(CA.__file__)
+    TARGETS.update(files)
+    results = {}
+
+    def body(i):
+        def f(s, me):
+            s.yield_point(me)
+            try:
+                results[str(i)] = show(target.evaluate(opts[i]))
+            except InfraError:
+                raise
+            except Exception as e:
+                results[str(i)] = "E:" + type(e).__name__
+        return f
+    s, ths = run_threads(n, preempts, gran, [body(i) for i in range(n)])
+    go(s, ths)
+    for th in ths:
+        RT._RUNTIMES.pop(th, None)
+    # afterwards, sequentially: the same options again (what the threads left in the caches)
+    after = {}
+    for i in range(n):
+        try:
+            after[str(i)] = show(target.evaluate(json.loads(json.dumps(scn["threads"][i]))))
+        except Exception as e:
+            after[str(i)] = "E:" + type(e).__name__
+    return s, {"dictops": ops, "results": results, "after": after,
+               "expected": {str(i): solo[str(i)] for i in range(n)}, "fps": [solo["fp%d" % i] for i in range(n)],
+               "bodies": sorted(show(c) for c in calls),
+               "traced": sorted(os.path.basename(f) for f in TARGETS), "shared_node_classes": sorted(classes)}
+
+
 # ------------------------------------------------------------------ exploration
 
 def execute(scn, serial, preempts, gran):
+    global NODE_FILES
     kind = scn["kind"]
-    RT.lock = SchedLock(quiet=(kind == "cache"))
+    RT.lock = SchedLock(quiet=(kind in ("cache", "graph")))
+    NODE_FILES = None
+    if kind == "graph":
+        return exec_graph(scn, serial, preempts, gran)
     TARGETS.clear()
     for m in TARGETS_OF[kind]:
         TARGETS.add(m.__file__)
@@ -686,6 +952,10 @@ def explore(job):
         level = [((), 0, -1)]           # (preempts tuple, cost, last index)
         seen = set()
         spent = 0
+        caps = phase.get("caps")        # graph scenarios: one reservoir per number of preemptions (see below)
+        if caps:
+            explore_by_cost(run, rng, stats, gran, bound, caps, phase["budget"])
+            level = []
         for depth in range(0, 10 ** 6):
             if not level or spent >= cap * (bound + 1):
                 break
@@ -730,6 +1000,53 @@ def explore(job):
             stats["by_level"][lv] = stats["by_level"].get(lv, 0) + 1
         stats["seconds"][gran] = [round(time.time() - t_phase, 2), stats["max_yield_points"]]
     return {"outcomes": list(outcomes.values()), "stats": stats}
+
+
+def explore_by_cost(run, rng, stats, gran, bound, caps, budget):
+    """Breadth first like the loop in explore(), but the schedules of one depth are kept in one reservoir per
+    NUMBER OF PREEMPTIONS (caps[c] schedules with c preemptions per depth): all schedules with one preemption -
+    thread X stopped at a yield point, the others run to completion, X resumes; for every X, because which thread
+    starts is a free choice - are run as long as there are at most caps[1] of them per depth, independent of how
+    many two-preemption schedules compete for the budget.  Cheaper schedules of a depth run first."""
+    level = [((), 0, -1)]
+    seen = set()
+    spent = 0
+    for depth in range(0, 10 ** 6):
+        if not level or spent >= budget:
+            break
+        nxt = {}
+        nseen = {}
+        for pre, cost, last in sorted(level, key=lambda e: e[1]):
+            if pre in seen:
+                continue
+            if spent >= budget:
+                stats["sampled_levels"].append([gran, depth, "budget"])
+                break
+            seen.add(pre)
+            spent += 1
+            s = run(dict(pre), gran, cost)
+            lv = "%s/%d" % (gran, cost)
+            stats["by_level"][lv] = stats["by_level"].get(lv, 0) + 1
+            for (k, me_en, alts) in s.choices:
+                if k <= last:
+                    continue
+                c2 = cost + (1 if me_en else 0)
+                if c2 > bound:
+                    continue
+                cap = caps[min(c2, len(caps) - 1)]
+                bucket = nxt.setdefault(c2, [])
+                for j in alts:
+                    nseen[c2] = nseen.get(c2, 0) + 1
+                    if len(bucket) < cap:
+                        bucket.append((pre + ((k, j),), c2, k))
+                    else:
+                        q = rng.randrange(nseen[c2])
+                        if q < cap:
+                            bucket[q] = (pre + ((k, j),), c2, k)
+        for c2 in sorted(nseen):
+            if nseen[c2] > caps[min(c2, len(caps) - 1)]:
+                stats["sampled_levels"].append([gran, depth + 1, "%d preemptions" % c2, nseen[c2]])
+        level = [e for c2 in sorted(nxt) for e in nxt[c2]]
 
 
 def rle(trace):
@@ -1008,8 +1325,37 @@ def judge_cache(scn, outcome, model_line: Optional[str]) -> List[Tuple[str, str]
     return res
 
 
+def judge_graph(scn, outcome, model_line: Optional[str]) -> List[Tuple[str, str]]:
+    """(d): the value a thread gets, and the value a later sequential evaluation with the same options gets, is
+    the one the thread's evaluation gives when it runs alone on a fresh graph"""
+    res = []
+    node = scn["node"]
+    for i, o in enumerate(scn["threads"]):
+        want = outcome["expected"][str(i)]
+        got = outcome["results"].get(str(i))
+        if got != want:
+            res.append(("failing-input", f"shared node: thread {i} evaluated a cached dataset over a shared `{node}` node with "
+                                         f"options {json.dumps(o)} and got {got}; evaluated alone these options give {want}"))
+        aft = outcome["after"].get(str(i))
+        if aft != want:
+            res.append(("failing-input", f"shared node: after the concurrent evaluations over a shared `{node}` node, a sequential "
+                                         f"evaluation with thread {i}'s options {json.dumps(o)} returns {aft}, not their own value "
+                                         f"{want} (a wrong value was stored under this cache key)"))
+    if model_line is not None:
+        model = dict(tok.split("=") for tok in model_line.split())
+        for i, fp in enumerate(outcome["fps"]):
+            if model.get(str(i)) != str(fp):
+                res.append(("correspondence", f"shared node: Lean model on the observed dict-operation order gives thread {i} "
+                                              f"the value of fingerprint class {model.get(str(i))}, its own is {fp}"))
+    return res
+
+
 def model_lines(scn, outcomes: List[Dict[str, Any]]) -> List[str]:
     kind = scn["kind"]
+    if kind == "graph":
+        # the dataset's own cache, as in (c); fingerprints are the classes of the threads' real cache fingerprints
+        return run_driver("drv_runtime", [" ".join([str(len(o["fps"]))] + [str(f) for f in o["fps"]] + ["|"] + [str(t) for t in o["dictops"]])
+                                          for o in outcomes], args=["cache"])
     if kind == "ctx":
         return run_driver("drv_runtime", [" ".join(o["commits"]) for o in outcomes], args=["sched"])
     if kind == "reg":
@@ -1020,7 +1366,7 @@ def model_lines(scn, outcomes: List[Dict[str, Any]]) -> List[str]:
 
 
 def judge(scn, outcome, model_line):
-    return {"ctx": judge_ctx, "reg": judge_reg, "cache": judge_cache}[scn["kind"]](scn, outcome, model_line)
+    return {"ctx": judge_ctx, "reg": judge_reg, "cache": judge_cache, "graph": judge_graph}[scn["kind"]](scn, outcome, model_line)
 
 
 # ----------------------------------------------------------------------------- scenarios
@@ -1100,12 +1446,91 @@ def scenarios(rng: random.Random, thorough: bool) -> List[Tuple[str, Dict[str, A
             pos = rng.randint(1, len(threads[-1]))
             threads[-1] = threads[-1][:pos] + [["i", 1]] + threads[-1][pos:]
         out.append((f"a-random-{r}", {"kind": "ctx", "setup": setup, "threads": threads}))
+    # (d) last, so that the scenarios above and their seeds are what they were before the family existed
+    out += graph_scenarios(rng, thorough)
     return out
 
 
-def phases(kind: str, thorough: bool) -> List[Dict[str, Any]]:
-    """cap = schedules per exploration depth; a phase runs at most cap * (bound + 1) schedules"""
+# (d) the directed family over user-built shared nodes: node kind (see build_graph in RUNNER) -> options of two
+# threads with different effective options (different cache fingerprints AND different values)
+GRAPH_NODES: Dict[str, List[Dict[str, Any]]] = {
+    "with_options": [{"A": 1}, {"A": 2}],
+    "with_options_section": [{"S": {"A": 1}}, {"S": {"A": 2}}],
+    "with_default_options": [{"A": 1}, {}],
+    "with_options_over_dataset": [{"A": 1, "U": 8}, {"A": 2, "U": 9}],
+    "with_options_as_argument": [{"A": 1}, {"A": 2}],
+    "switch": [{"MODE": "x", "X": 11, "Y": 12, "Z": 13}, {"MODE": "y", "X": 21, "Y": 22, "Z": 23}],
+    "case": [{"A": 1, "X": 11, "Y": 12}, {"A": 50, "X": 21, "Y": 22}],
+    "coalesce": [{"P": 1, "Q": 2}, {"Q": 3}],
+    "template": [{"A": "a1", "B": "b1"}, {"A": "a2", "B": "b2"}],
+    "map": [{"XS": [1, 2]}, {"XS": [3]}],
+    "iter": [{"A": 1, "B": 2}, {"A": 3, "B": 4}],
+    "collections": [{"A": 1, "B": 2}, {"A": 3, "B": 4}],
+    "pipeline": [{"A": 1, "K": 10}, {"A": 2, "K": 20}],
+    "overloaded": [{"K": 1, "X": 11, "Y": 12, "Z": 13}, {"K": 2, "X": 21, "Y": 22, "Z": 23}],
+    "bind_apply": [{"MODE": "x", "X": 11, "Y": 12}, {"MODE": "y", "X": 21, "Y": 22}],
+    "option_default": [{"A": 1, "B": 5, "C": 6}, {"B": 2}],
+}
+# a third thread with options of its own (the three-thread scenarios are: different, different, equal to the
+# first; and for the option wrappers also three different ones)
+GRAPH_THIRD: Dict[str, Dict[str, Any]] = {
+    "with_options": {"A": 3},
+    "with_default_options": {"A": 2},
+    "switch": {"MODE": "q", "X": 31, "Y": 32, "Z": 33},
+}
+GRAPH_WRAPPERS = ["with_options", "with_default_options"]
+# the two threads do different things (one takes the default / the second member / the fallback): which of them is the
+# one that is stopped matters, so both starting orders are explored also in the quick tier
+GRAPH_ASYMMETRIC = ["with_default_options", "coalesce", "option_default"]
+
+
+def graph_scenarios(rng: random.Random, thorough: bool) -> List[Tuple[str, Dict[str, Any]]]:
+    """always: every node kind with two threads / different options; the option wrappers with equal options and
+    with three threads (two with equal options); quick: three threads for one more kind chosen by the seed;
+    thorough: three threads for all kinds, and three different options for the wrappers and the switch"""
+    out: List[Tuple[str, Dict[str, Any]]] = []
+    kinds = list(GRAPH_NODES)
+
+    def add(tag, node, threads, both_orders=True):
+        out.append((f"d-{node} {tag}", {"kind": "graph", "node": node, "threads": threads,
+                                        "both_orders": bool(both_orders or thorough)}))
+    for node in kinds:
+        add("two evaluations with different options", node, GRAPH_NODES[node], node in GRAPH_ASYMMETRIC)
+    for node in GRAPH_WRAPPERS:
+        a, b = GRAPH_NODES[node]
+        add("two evaluations with equal options", node, [a, a], False)
+    rest = [k for k in kinds if k not in GRAPH_WRAPPERS]
+    three = kinds if thorough else GRAPH_WRAPPERS + [rng.choice(rest)]
+    for node in three:
+        a, b = GRAPH_NODES[node]
+        add("three evaluations, two with equal options", node, [a, b, a])
+    if thorough:
+        for node in sorted(GRAPH_THIRD):
+            add("three evaluations with different options", node, GRAPH_NODES[node] + [GRAPH_THIRD[node]])
+    return out
+
+
+def phases(kind: str, thorough: bool, scn: Optional[Dict[str, Any]] = None) -> List[Dict[str, Any]]:
+    """cap = schedules per exploration depth; a phase runs at most cap * (bound + 1) schedules.
+    graph scenarios: caps[c] = schedules with c preemptions per exploration depth (c = 0: the free choices - which
+    thread starts, which one goes on when a thread has finished), budget = schedules per phase"""
     pb = 3 if thorough else 2
+    if kind == "graph":
+        two = len(scn["threads"]) == 2
+        free = 30 if (scn.get("both_orders") or not two) else 0
+        if thorough:
+            line = {"caps": [60, 2500, 500, 250], "budget": 3500, "random": 100}
+            opcode = {"caps": [60, 2500, 300, 150], "budget": 3000, "random": 100}
+        elif two:
+            line = {"caps": [free, 600, 40], "budget": 700, "random": 10}
+            opcode = {"caps": [free, 200, 15], "budget": 220, "random": 5}
+        else:
+            line = {"caps": [free, 300, 20], "budget": 340, "random": 10}
+            opcode = {"caps": [free, 150, 10], "budget": 170, "random": 5}
+        op = {"caps": [60, 600, 600, 600], "budget": 2000} if thorough else {"caps": [30, 60, 60], "budget": 150}
+        return [{"gran": "op", "bound": pb, "cap": 0, "random": 0, **op},
+                {"gran": "line", "bound": pb, "cap": 0, **line},
+                {"gran": "opcode", "bound": pb, "cap": 0, **opcode}]
     if kind == "reg":
         return [{"gran": "op", "bound": pb, "cap": 300 if thorough else 80, "random": 0},
                 {"gran": "line", "bound": pb, "cap": 600 if thorough else 100, "random": 50 if thorough else 10},
@@ -1127,9 +1552,24 @@ def explore(ctx: Ctx) -> Exploration:
     rng = random.Random(ctx.seed)
     thorough = ctx.tier == "thorough"
     scns = scenarios(rng, thorough)
-    jobs = [{"cmd": "explore", "scenario": scn, "seed": ctx.seed * 1000 + i, "phases": phases(scn["kind"], thorough)}
+    jobs = [{"cmd": "explore", "scenario": scn, "seed": ctx.seed * 1000 + i,
+             "phases": phases(scn["kind"], thorough, scn)}
             for i, (_, scn) in enumerate(scns)]
-    # one runner process per scenario (isolation; an infra failure names the scenario)
+    # one runner process per scenario (isolation; an infra failure names the scenario), several at a time; every
+    # process is deterministic given its job, and the results are consumed in list order, so the verdict does not
+    # depend on the timing.  Submitted longest first: family (d) from the end of the list, then the others
+    timeout = 1500 if thorough else 240
+    workers = max(1, min(12, (os.cpu_count() or 2) - 2))
+    pool = ThreadPoolExecutor(max_workers=workers)
+    order = sorted(range(len(jobs)), key=lambda i: (scns[i][1]["kind"] != "graph", -i if scns[i][1]["kind"] == "graph" else i))
+    background = {i: pool.submit(run_runner, [jobs[i]], 3 * timeout) for i in order}
+    try:
+        return _explore(ctx, thorough, scns, jobs, background)
+    finally:
+        pool.shutdown(wait=False, cancel_futures=True)
+
+
+def _explore(ctx: Ctx, thorough: bool, scns, jobs, background) -> Exploration:
     findings: List[Finding] = []
     total_exec = 0
     total_outcomes = 0
@@ -1137,9 +1577,12 @@ def explore(ctx: Ctx) -> Exploration:
     dist: Dict[str, Any] = {"by_level": {}, "max_yield_points": {}, "sampled_levels": {}, "distinct_outcomes": {}}
     samples = []
     checked = 0
-    for (name, scn), job in zip(scns, jobs):
+    kinds: Dict[str, int] = {}
+    graph_cov: Dict[str, Any] = {}
+    for idx, ((name, scn), job) in enumerate(zip(scns, jobs)):
+        kinds[scn["kind"]] = kinds.get(scn["kind"], 0) + 1
         try:
-            res = run_runner([job], timeout=1500 if thorough else 240)[0]
+            res = background[idx].result()[0]
         except Infra as e:
             raise Infra(f"scenario `{name}`: {e}")
         outs = res["outcomes"]
@@ -1152,6 +1595,12 @@ def explore(ctx: Ctx) -> Exploration:
         dist["distinct_outcomes"][name] = len(outs)
         if st["sampled_levels"]:
             dist["sampled_levels"][name] = st["sampled_levels"]
+        if scn["kind"] == "graph" and outs:
+            g = graph_cov.setdefault(scn["node"], {"scenarios": 0, "executions": 0, "traced_files": [], "shared_node_classes": []})
+            g["scenarios"] += 1
+            g["executions"] += st["executions"]
+            g["traced_files"] = outs[0]["outcome"]["traced"]
+            g["shared_node_classes"] = outs[0]["outcome"]["shared_node_classes"]
         mlines = model_lines(scn, [o["outcome"] for o in outs])
         if len(mlines) != len(outs):
             raise Infra("drv_runtime returned a wrong number of lines")
@@ -1188,6 +1637,10 @@ def explore(ctx: Ctx) -> Exploration:
         "distribution": dist,
         "preemption_bound": 3 if thorough else 2,
         "granularities": ["op", "line", "opcode"],
+        "scenario_kinds": {"a handler contexts (ctx)": kinds.get("ctx", 0), "b register (reg)": kinds.get("reg", 0),
+                           "c cached dataset (cache)": kinds.get("cache", 0),
+                           "d cached dataset over shared user-built nodes (graph)": kinds.get("graph", 0)},
+        "shared_node_family": graph_cov,
     }
     return Exploration(findings, cov)
 
@@ -1208,7 +1661,7 @@ def replay(ctx: Ctx, payload: Dict[str, Any]) -> int:
     for k, w in js:
         print(f"FAIL [{k}] {w}")
     if not js:
-        print("verdict  : thread-local / all keys present / own value, and agrees with the model")
+        print("verdict  : thread-local / all keys present / own value (also afterwards), and agrees with the model")
     return 1 if js else 0
 
 
